@@ -14,7 +14,7 @@ from .. import gen, ref, ux, core
 PROPERTY = "C10"
 SHARDS = {"quick": 6, "thorough": 16}
 RULE = (
-    "cases: programs op_n(...op_1(uxda)) of depth 1..4 over a catalogue of ~75 operations tagged with the family the property names "
+    "cases: programs op_n(...op_1(uxda)) of depth 1..4 over a catalogue of ~110 operations (incl. NumPy functions with several outputs: every output judged; arrays carrying auxiliary coordinates along the element dimension, scalar and 2-D coordinates: the result's coordinates equal the plain result's) tagged with the family the property names "
     "(arithmetic/NumPy, where/clip/fillna/astype, indexing on non-grid dimensions in every spelling, reductions, cumulative and "
     "rolling operations, transposition, renaming, coordinate assignment, concatenation, shallow/deep copies) interleaved with uxarray's "
     "own operations (grid-dimension indexing through isel kwargs / positional dict / [] / head / tail / thin with sorted, shuffled, repeated, boolean-mask (numpy and DataArray), negative-step and one-element indexers, where(..., drop=True) over a grid dimension, remap, integrate, gradient, difference, "
@@ -95,6 +95,11 @@ def catalogue():
     add("np_sqrt_abs", "numpy", lambda a: np.sqrt(np.abs(a)), _num)
     add("np_isfinite", "numpy", lambda a: np.isfinite(a), _num)
     add("round", "numpy", lambda a: a.round(1), _float)
+    # NumPy functions with several outputs: a tuple of arrays comes back, each of them is a result
+    add("np_modf", "numpy_multi", lambda a: np.modf(a), _float)
+    add("np_frexp", "numpy_multi", lambda a: np.frexp(a), _float)
+    add("np_divmod", "numpy_multi", lambda a: np.divmod(a, 2), lambda a: a.dtype.kind in "fi")
+    add("divmod_builtin", "numpy_multi", lambda a: divmod(a, 2), lambda a: a.dtype.kind in "fi")
     # where / clip / fillna / astype
     add("where_cond", "where", lambda a: a.where(a > 2), _num)
     add("where_other", "where", lambda a: a.where(a > 2, 0), _num)
@@ -367,6 +372,13 @@ def same_values(r, s, exact=True):
         return False, "values differ"
     if r.name != s.name:
         return False, "name %r vs shadow %r" % (r.name, s.name)
+    # every coordinate plain xarray's result carries (index, auxiliary along any dimension, scalar) is carried with the same values
+    for cn, cv in s.coords.items():
+        if cn not in r.coords:
+            return False, "coordinate %r of the plain result is missing" % cn
+        rc = r.coords[cn]
+        if tuple(rc.dims) != tuple(cv.dims) or not np.array_equal(np.asarray(rc.values), np.asarray(cv.values), equal_nan=(np.asarray(cv.values).dtype.kind == "f")):
+            return False, "coordinate %r differs from the plain result's" % cn
     return True, None
 
 
@@ -413,7 +425,17 @@ def run_case(ctx, case):
         data = base > 2
     else:
         data = base.astype(case["dtype"])
-    coords = {"t": np.arange(lead[0]) * 1.5} if lead else None
+    coords = {"t": np.arange(lead[0]) * 1.5} if lead else {}
+    if case["dseed"] % 2 == 0:  # an auxiliary (non-index) coordinate along the element dimension, e.g. the elements' ids
+        coords["elem_id"] = ((case["kind"],), np.arange(n_el) * 10 + 3)
+        ctx.observe("with_auxiliary_coordinate_on_element_dim")
+    if case["dseed"] % 3 == 0:  # a scalar coordinate
+        coords["run"] = 7.0
+        ctx.observe("with_scalar_coordinate")
+    if len(lead) >= 2 and case["dseed"] % 5 < 2:  # a two-dimensional auxiliary coordinate over a leading and the element dimension
+        coords["w2d"] = ((ldims[1], case["kind"]), np.arange(lead[1] * n_el, dtype=float).reshape(lead[1], n_el))
+        ctx.observe("with_2d_coordinate")
+    coords = coords or None
     a = U.UxDataArray(data.copy(), dims=ldims + [case["kind"]], coords=coords, uxgrid=g, name="v")
     s = xr.DataArray(data.copy(), dims=ldims + [case["kind"]], coords=coords, name="v")
     backend = case.get("backend", "numpy")
@@ -495,6 +517,30 @@ def run_case(ctx, case):
             ctx.check("no_exception", False, dict(sig, exc=core.exc_sig(e)), dict(det, exc=repr(e)[:300]))
             break
         ctx.check("no_exception", True)
+        if isinstance(s2, tuple) and s2 and all(isinstance(x, xr.DataArray) for x in s2):
+            # several outputs: every one of them is judged; the program goes on with one of them
+            okt = isinstance(r, tuple) and len(r) == len(s2)
+            ctx.check("is_uxda", okt, dict(sig, what="tuple of results"), dict(det, got_type=type(r).__name__))
+            if not okt:
+                break
+            bad = False
+            for k_, (rk, sk) in enumerate(zip(r, s2)):
+                sigk = dict(sig, output=k_)
+                okv, why = same_values(rk, sk, exact=backend == "numpy") if isinstance(rk, xr.DataArray) else (False, "not an array: %s" % type(rk).__name__)
+                ctx.check("values_equal_shadow", okv, sigk, dict(det, why=why))
+                if not invariants(ctx, U, rk, sigk, det):
+                    bad = True
+                    continue
+                ctx.check("grid_attached", rk.uxgrid is grid_now, dict(sigk, expect="same grid object"), dict(det, has_grid=rk.uxgrid is not None))
+                bad = bad or not okv or rk.uxgrid is None
+            if bad:
+                break
+            pick = (case["dseed"] + step) % len(s2)
+            a, s = r[pick], s2[pick]
+            done.append(nm)
+            ctx.observe("op_" + nm)
+            ctx.observe("family_" + fam)
+            continue
         if not isinstance(s2, xr.DataArray):
             ctx.observe("result_not_an_array")
             break
